@@ -31,6 +31,14 @@ def run_C17(ctx):
                 c.ops += [f"{'fromcore' if fam == 'stream' else 'setpos'} {target}", "debug", "algname"]
                 c.meta["cls_pos"] = "limit" if target >= limb - 3 else "far"
             allc.append(c)
+    # the ciphertext-stealing types implement neither `Debug` nor `Drop` at the pinned commit; if a `Debug` impl appears
+    # (the harness probes for one at a call site where the type is concrete) its text must be constant per type as well
+    for mode in CTS_MODES:
+        for _ in range(ctx.n(6, 40)):
+            bs, w = pick_matrix(rng, "cbc-enc")
+            c = Case("cts", mode, bs, w, rb(rng, 16), rb_nz(rng, ivlen(mode, bs)))
+            c.ops += ["debug", f"enc {hx(rb(rng, rng.randrange(bs, 3 * bs)))}", "debug"]
+            allc.append(c)
     res = ctx.run(allc, layers=("impl",))
     ctx.no_panic(allc, res)
     by_type = {}
